@@ -84,7 +84,8 @@ def r1(ctx):
             g_ = comp.generators[0]
             c = g_.target.id
             if N.key(g_.iter) == N.key(parse_expr("np.unique(self.chain_ids)")):
-                v = inline_calls(comp.elt, ctx.R, f.mod, class_q=ME)
+                outer = {k_: v_ for k_, v_ in single_defs(f.node).items() if k_ != c}        # loop-invariant values named before the comprehension
+                v = inline_calls(inline(comp.elt, outer), ctx.R, f.mod, class_q=ME)
                 want = parse_expr(f"((self.predictions[:, self.chain_ids == {c}] - self.observations[:, None]) ** 2).mean()")
                 ok = N.key(v) == N.key(want)
                 detail = f"per-chain value `{U(v)[:100]}`"
@@ -112,31 +113,36 @@ def r3(ctx):
     sids, tids, obs = f.params
     env = single_defs(f.node)
     N = Norm(strict=False)
-    # roles: the locals holding the single-agent rows' observations / sample ids / agent id (whatever they are called)
-    roles = {}
-    masks = set()
-    for k, v in env.items():
-        if isinstance(v, ast.Subscript) and U(v.value) == obs and not isinstance(v.slice, (ast.Tuple, ast.Slice, ast.Constant)):
-            roles["obs"] = k
-            masks.add(U(v.slice))
-        if isinstance(v, ast.Subscript) and U(v.value) == sids and not isinstance(v.slice, (ast.Tuple, ast.Slice, ast.Constant)):
-            roles["sid"] = k
-            masks.add(U(v.slice))
-    ctx.need("obs" in roles and "sid" in roles and len(masks) == 1, f"{f.site()}: the single-agent rows of `{obs}` / `{sids}` under one common selection were not found")
-    mask = next(iter(masks))
-    tr_name, tr = None, None
-    for k, v in env.items():
-        if N.key(v) in (N.key(parse_expr(f"np.sort({tids}[{mask}, :], axis=1)[:, -1]")), N.key(parse_expr(f"np.max({tids}[{mask}, :], axis=1)")),
-                        N.key(parse_expr(f"{tids}[{mask}, :].max(axis=1)")), N.key(parse_expr(f"{tids}[{mask}].max(axis=1)")), N.key(parse_expr(f"np.max({tids}[{mask}], axis=1)"))):
-            tr_name, tr = k, v
-    bad_tr = [k for k, v in env.items() if tr_name is None and isinstance(v, (ast.Subscript, ast.Call)) and f"{tids}[{mask}" in U(v).replace(" ", "")]
-    if tr_name is None and not bad_tr:
-        raise AnalysisError(f"{f.site()}: the agent id of the single-agent rows (a reduction of `{tids}[{mask}, :]`) was not found")
-    ctx.check("R3", f"{f.site()}::treatment-is-row-maximum", tr_name is not None, "the single agent of a row is its maximum id (the sentinel -1 is the minimum)",
-              f"the single agent of a single-agent row is `{U(env[bad_tr[0]]) if bad_tr else None}`, not the row maximum")
-    if tr_name is None:
+    # roles: the single-agent rows' observations / sample ids / agent id, whatever they are called and whether or not they are named
+    # at all - every expression is read through the function's single definitions first
+    def full(e):
+        return inline(e, env)
+    masks = {"obs": set(), "sid": set()}
+    for x in ast.walk(f.node):
+        if isinstance(x, ast.Subscript) and isinstance(x.ctx, ast.Load) and isinstance(x.value, ast.Name) and x.value.id in (obs, sids) \
+                and not isinstance(x.slice, (ast.Tuple, ast.Slice, ast.Constant)):
+            m_ = full(x.slice)
+            if isinstance(m_, ast.Name):
+                continue            # indexed by a loop variable / scalar: not a row selection
+            masks["obs" if x.value.id == obs else "sid"].add(U(m_))
+    ctx.need(len(masks["obs"]) == 1 and masks["obs"] == masks["sid"], f"{f.site()}: the single-agent rows of `{obs}` / `{sids}` under one common selection were not found")
+    mask = next(iter(masks["obs"]))
+    tr_forms = [N.key(parse_expr(t_)) for t_ in (f"np.sort({tids}[{mask}, :], axis=1)[:, -1]", f"np.max({tids}[{mask}, :], axis=1)", f"{tids}[{mask}, :].max(axis=1)",
+                                                  f"{tids}[{mask}].max(axis=1)", f"np.max({tids}[{mask}], axis=1)")]
+    tr = None
+    cands = [full(x) for x in ast.walk(f.node) if isinstance(x, (ast.Subscript, ast.Call)) and isinstance(getattr(x, "ctx", ast.Load()), ast.Load)]
+    for c_ in cands:
+        if N.key(c_) in tr_forms:
+            tr = c_
+    mt = f"{tids}[{mask}".replace(" ", "")
+    bad_tr = [c_ for c_ in cands if tr is None and mt in U(c_).replace(" ", "")]
+    if tr is None and not bad_tr:
+        raise AnalysisError(f"{f.site()}: the agent id of the single-agent rows (a reduction of `{tids}[<single-agent rows>, :]`) was not found")
+    ctx.check("R3", f"{f.site()}::treatment-is-row-maximum", tr is not None, "the single agent of a row is its maximum id (the sentinel -1 is the minimum)",
+              f"the single agent of a single-agent row is `{U(min(bad_tr, key=lambda z: len(U(z)))) if bad_tr else None}`, not the row maximum")
+    if tr is None:
         return
-    O, S_, T_ = roles["obs"], roles["sid"], tr_name
+    O, S_, T_ = f"{obs}[{mask}]", f"{sids}[{mask}]", U(tr)
     # effect = mean of matching observations
     st = [n for n in walk_own(f.node) if isinstance(n, ast.Assign) and isinstance(n.targets[0], ast.Subscript) and U(n.targets[0].value) == "result"]
     vals = {}
@@ -147,14 +153,26 @@ def r3(ctx):
     ctx.need(len(loops) == 2, f"{f.site()}: the (sample, treatment) double loop was not found")
     outer = max(loops, key=lambda lp: len(list(ast.walk(lp))))
     inner_l = min(loops, key=lambda lp: len(list(ast.walk(lp))))
+    ctx.need(any(x is inner_l for x in ast.walk(outer)), f"{f.site()}: the effect table is not filled by a (sample, treatment) double loop; this grouping algorithm is not one the rule knows")
     sv, tv = U(outer.target), U(inner_l.target)
     if N.key(inline(outer.iter, env)) != N.key(parse_expr(f"np.unique({sids})")):
         sv, tv = tv, sv            # treatments outside, samples inside
-    keep = {O, S_, T_, "result", sv, tv}
+    keep = {"result", sv, tv}
     venv = {k: x for k, x in env.items() if k not in keep}
     for n in st:
         key = U(inline(n.targets[0].slice, {k: x for k, x in env.items() if isinstance(x, ast.Tuple)})).replace(" ", "")
-        v = inline(n.value, venv)
+        # the value as bound in the statement's own block first (a local re-bound per arm), then through the single definitions
+        benv = {}
+        owner = par.get(n)
+        for fld in ("body", "orelse", "finalbody"):
+            lst = getattr(owner, fld, None)
+            if isinstance(lst, list) and n in lst:
+                for prev in lst[:lst.index(n)]:
+                    if isinstance(prev, ast.Assign) and len(prev.targets) == 1 and isinstance(prev.targets[0], ast.Name):
+                        benv[prev.targets[0].id] = inline(prev.value, benv)
+                    elif not isinstance(prev, ast.Expr):
+                        benv = {}
+        v = inline(inline(n.value, benv), venv)
         inner = [lp for lp in loops if n in list(ast.walk(lp))]
         inner = min(inner, key=lambda lp: len(list(ast.walk(lp)))) if inner else None
         conds = stmt_conditions(inner.body).get(id(n), []) if inner is not None else []
